@@ -101,6 +101,290 @@ fn run(c: &Case, out: &mut Out) {
     }
 }
 
+// ---------------------------------------------------------------------------
+// black box: a real worker (`sozu_lib::server::Server`) in a thread, driven over its command
+// channel (same pattern as harness/src/bin/c08.rs).  For every request: the worker's answer,
+// what ConfigState::dispatch says about it (the worker's config_state is that function applied
+// to the same request sequence), and the worker's own QueryClusterById answer as cross-check.
+
+mod bb {
+    use std::io::{Read, Write};
+    use std::os::unix::net::UnixStream;
+    use std::time::{Duration, Instant};
+
+    use prost::Message;
+    use sozu_command_lib::{
+        channel::Channel,
+        config::{ConfigBuilder, FileConfig},
+        logging::LOGGER,
+        proto::command::{
+            request::RequestType, response_content::ContentType, AddBackend, AddCertificate, CertificateAndKey, Cluster,
+            HardStop, HttpListenerConfig, PathRule, RemoveBackend, Request, RequestHttpFrontend, RequestTcpFrontend,
+            ServerConfig, SocketAddress, Status, WorkerRequest, WorkerResponse,
+        },
+        scm_socket::{Listeners, ScmSocket},
+        state::ConfigState,
+    };
+    use sozu_lib::server::Server;
+
+    fn frame(payload: &[u8]) -> Vec<u8> {
+        let mut v = (payload.len() + 8).to_le_bytes().to_vec();
+        v.extend_from_slice(payload);
+        v
+    }
+
+    pub struct W {
+        sock: UnixStream,
+        buf: Vec<u8>,
+        job: Option<std::thread::JoinHandle<()>>,
+        _scm: UnixStream,
+        n: usize,
+        pub view: ConfigState,
+    }
+
+    pub fn start() -> W {
+        let (a, b) = UnixStream::pair().unwrap();
+        let (s1, s2) = UnixStream::pair().unwrap();
+        a.set_nonblocking(true).unwrap();
+        let s2k = s2.try_clone().unwrap();
+        let job = std::thread::Builder::new()
+            .name("worker".into())
+            .spawn(move || {
+                use std::os::fd::IntoRawFd;
+                LOGGER.with(|l| l.borrow_mut().set_directives(vec![]));
+                let config = ConfigBuilder::new(FileConfig::default(), "").into_config().expect("config");
+                let sc = ServerConfig::from(&config);
+                let channel: Channel<WorkerResponse, WorkerRequest> =
+                    Channel::new(mio::net::UnixStream::from_std(a), sc.command_buffer_size, sc.max_command_buffer_size);
+                let scm_main = ScmSocket::new(s2.into_raw_fd()).expect("scm");
+                scm_main.send_listeners(&Listeners::default()).expect("send listeners");
+                let scm = ScmSocket::new(s1.into_raw_fd()).expect("scm");
+                let mut server =
+                    Server::try_new_from_config(channel, scm, sc, ConfigState::new().produce_initial_state(), false).expect("worker");
+                server.run();
+            })
+            .unwrap();
+        W { sock: b, buf: vec![], job: Some(job), _scm: s2k, n: 0, view: ConfigState::new() }
+    }
+
+    impl W {
+        fn write(&mut self, id: &str, req: &Request) -> bool {
+            let wr = WorkerRequest { id: id.to_string(), content: req.clone() };
+            self.sock.set_nonblocking(false).ok();
+            self.sock.set_write_timeout(Some(Duration::from_secs(5))).ok();
+            self.sock.write_all(&frame(&wr.encode_to_vec())).is_ok()
+        }
+        fn wait(&mut self, id: &str) -> Option<WorkerResponse> {
+            let t0 = Instant::now();
+            self.sock.set_nonblocking(true).ok();
+            let mut tmp = [0u8; 65536];
+            loop {
+                while self.buf.len() >= 8 {
+                    let len = usize::from_le_bytes(self.buf[..8].try_into().unwrap());
+                    if len < 8 || self.buf.len() < len {
+                        break;
+                    }
+                    let payload = self.buf[8..len].to_vec();
+                    self.buf.drain(..len);
+                    if let Ok(r) = WorkerResponse::decode(&payload[..]) {
+                        if r.id == id && r.status != 1 {
+                            return Some(r);
+                        }
+                    }
+                }
+                match self.sock.read(&mut tmp) {
+                    Ok(0) => return None,
+                    Ok(n) => self.buf.extend_from_slice(&tmp[..n]),
+                    Err(e) if e.kind() == std::io::ErrorKind::WouldBlock => {
+                        if t0.elapsed() > Duration::from_secs(20) {
+                            return None;
+                        }
+                        std::thread::sleep(Duration::from_micros(300));
+                    }
+                    Err(_) => return None,
+                }
+            }
+        }
+        /// -> (worker answered OK, ConfigState accepted, the view changed)
+        pub fn send(&mut self, req: Request) -> Option<(bool, bool, bool)> {
+            self.n += 1;
+            let id = format!("REQ-{}", self.n);
+            let before = self.view.clone();
+            let state_ok = self.view.dispatch(&req).is_ok();
+            let mut a = before.clone();
+            let mut b = self.view.clone();
+            a.request_counts.clear();
+            b.request_counts.clear();
+            let changed = a != b;
+            if !self.write(&id, &req) {
+                return None;
+            }
+            let r = self.wait(&id)?;
+            Some((r.status == 0, state_ok, changed))
+        }
+        /// the worker's own answer to QueryClusterById must be what the local copy of the view says
+        pub fn view_agrees(&mut self, cluster: &str) -> Option<bool> {
+            self.n += 1;
+            let id = format!("Q-{}", self.n);
+            if !self.write(&id, &RequestType::QueryClusterById(cluster.to_string()).into()) {
+                return None;
+            }
+            let r = self.wait(&id)?;
+            let got = match r.content.and_then(|c| c.content_type) {
+                Some(ContentType::Clusters(cs)) => cs.vec,
+                _ => vec![],
+            };
+            let want: Vec<_> = self.view.cluster_state(cluster).into_iter().collect();
+            Some(got == want)
+        }
+        pub fn stop(mut self) {
+            self.n += 1;
+            let _ = self.write("STOP", &RequestType::HardStop(HardStop {}).into());
+            let t0 = Instant::now();
+            while let Some(j) = self.job.as_ref() {
+                if j.is_finished() || t0.elapsed() > Duration::from_secs(5) {
+                    break;
+                }
+                let _ = self.wait("never");
+                std::thread::sleep(Duration::from_millis(5));
+            }
+            if let Some(j) = self.job.take() {
+                if j.is_finished() {
+                    let _ = j.join();
+                }
+            }
+        }
+    }
+
+    pub fn addr(port: u16) -> SocketAddress {
+        SocketAddress::new_v4(127, 0, 0, 1, port)
+    }
+    pub fn cluster(id: &str) -> Request {
+        RequestType::AddCluster(Cluster { cluster_id: id.into(), ..Default::default() }).into()
+    }
+    pub fn front(cluster: &str, port: u16, host: &str) -> RequestHttpFrontend {
+        RequestHttpFrontend {
+            cluster_id: Some(cluster.into()),
+            address: addr(port),
+            hostname: host.into(),
+            path: PathRule::prefix("/"),
+            position: 2,
+            ..Default::default()
+        }
+    }
+    pub fn backend(cluster: &str, id: &str, port: u16) -> Request {
+        RequestType::AddBackend(AddBackend { cluster_id: cluster.into(), backend_id: id.into(), address: addr(port), ..Default::default() }).into()
+    }
+    pub fn remove_backend(cluster: &str, id: &str, port: u16) -> Request {
+        RequestType::RemoveBackend(RemoveBackend { cluster_id: cluster.into(), backend_id: id.into(), address: addr(port) }).into()
+    }
+    pub fn http_listener(port: u16) -> Request {
+        RequestType::AddHttpListener(HttpListenerConfig { address: addr(port), ..Default::default() }).into()
+    }
+    pub fn cert(port: u16) -> Request {
+        RequestType::AddCertificate(AddCertificate {
+            address: addr(port),
+            certificate: CertificateAndKey {
+                certificate: include_str!("/repo/lib/assets/certificate.pem").into(),
+                key: include_str!("/repo/lib/assets/key.pem").into(),
+                ..Default::default()
+            },
+            expired_at: None,
+        })
+        .into()
+    }
+    pub fn tcp_front(cluster: &str, port: u16) -> Request {
+        RequestType::AddTcpFrontend(RequestTcpFrontend { cluster_id: cluster.into(), address: addr(port), ..Default::default() }).into()
+    }
+    pub fn status() -> Request {
+        RequestType::Status(Status {}).into()
+    }
+}
+
+/// scenario -> the requests; the LAST one is the request under test
+fn scenario(name: &str) -> Option<Vec<sozu_command_lib::proto::command::Request>> {
+    use bb::*;
+    use sozu_command_lib::proto::command::request::RequestType as RT;
+    Some(match name {
+        "http_front_no_listener" => vec![cluster("c0"), RT::AddHttpFrontend(front("c0", 18080, "a.test")).into()],
+        "https_front_no_listener" => vec![cluster("c0"), RT::AddHttpsFrontend(front("c0", 18443, "a.test")).into()],
+        "tcp_front_no_listener" => vec![cluster("c0"), tcp_front("c0", 18081)],
+        "remove_cluster_unknown" => vec![cluster("c0"), RT::RemoveCluster("nope".into()).into()],
+        "remove_backend_unknown" => vec![cluster("c0"), remove_backend("c0", "b0", 19000)],
+        "remove_backend_wrong_id" => vec![cluster("c0"), backend("c0", "b0", 19000), remove_backend("c0", "other", 19000)],
+        "cert_no_https_listener" => vec![cert(18443)],
+        "backend_duplicate" => vec![cluster("c0"), backend("c0", "b0", 19000), backend("c0", "b0", 19000)],
+        "http_front_duplicate" => vec![http_listener(18080), cluster("c0"), RT::AddHttpFrontend(front("c0", 18080, "a.test")).into(), RT::AddHttpFrontend(front("c0", 18080, "a.test")).into()],
+        "http_front_ok" => vec![http_listener(18080), cluster("c0"), RT::AddHttpFrontend(front("c0", 18080, "a.test")).into()],
+        "remove_front_unknown" => vec![http_listener(18080), cluster("c0"), RT::RemoveHttpFrontend(front("c0", 18080, "a.test")).into()],
+        "status" => vec![status()],
+        _ => return None,
+    })
+}
+
+fn run_bb(c: &Case, out: &mut Out) {
+    for op in &c.ops {
+        let name = op.args[0].s().to_string();
+        let Some(reqs) = scenario(&name) else {
+            out.note("invalid-case: unknown scenario");
+            out.obs(&[]);
+            continue;
+        };
+        let mut w = bb::start();
+        let mut toks = vec![];
+        let mut last = None;
+        let mut dead = false;
+        for r in reqs {
+            let verb = r.short_name().to_string();
+            match w.send(r) {
+                Some((ok, sok, ch)) => {
+                    toks.extend([tn(ok as i128), tn(sok as i128), tn(ch as i128)]);
+                    last = Some((verb, ok, sok, ch));
+                }
+                None => {
+                    dead = true;
+                    break;
+                }
+            }
+        }
+        if dead {
+            out.viol("worker-died", &format!("scenario {name}: the worker stopped answering"));
+            out.obs(&[ts("gone")]);
+            continue;
+        }
+        match w.view_agrees("c0") {
+            Some(true) => toks.push(tn(1)),
+            Some(false) => {
+                toks.push(tn(0));
+                out.viol("worker-view-mismatch", &format!("scenario {name}: QueryClusterById(c0) of the worker differs from ConfigState applied to the same requests"));
+            }
+            None => toks.push(ts("gone")),
+        }
+        out.obs(&toks);
+        if let Some((verb, ok, sok, ch)) = last {
+            if !ok && ch {
+                out.viol(
+                    "worker-view-drift",
+                    &format!("{verb} ({name}): the worker answers Failure (the live proxy refuses) but config_state.dispatch, applied first and its result ignored, accepted it: the worker's queryable view keeps an object its proxy refused"),
+                );
+            }
+            if ok && !sok {
+                out.viol(
+                    "worker-view-drift",
+                    &format!("{verb} ({name}): the worker's config_state rejected the request (view unchanged) yet the proxies were invoked and the worker answered OK"),
+                );
+            }
+        }
+        w.stop();
+    }
+}
+
 fn main() {
-    drive(run);
+    drive(|c, o| {
+        if c.ops.iter().all(|op| op.name == "scenario") {
+            run_bb(c, o)
+        } else {
+            run(c, o)
+        }
+    });
 }
